@@ -436,6 +436,15 @@ class Enumerator:
             return [((), "fall", None)]
         if isinstance(st, ast.Match):
             raise AnalysisError(self.rule, self.where, "match statement not supported by the path enumerator")
+        # conditional expression at the top of an assignment / return: x = a if c else b  ==  if c: x = a else: x = b
+        val = getattr(st, "value", None)
+        if isinstance(st, (ast.Assign, ast.AugAssign, ast.Return)) and isinstance(val, ast.IfExp):
+            out = []
+            for arm, pol in ((val.body, True), (val.orelse, False)):
+                st2 = _with_value(st, arm)
+                for ev, term, tn in self.stmt(st2):
+                    out.append(((Ev("test", val.test, pol),) + ev, term, tn))
+            return out
         return [((Ev("stmt", st),), "fall", None)]
 
     def try_(self, st):
@@ -474,6 +483,17 @@ class Enumerator:
                     out2.append((ev + ev2, term if term2 == "fall" else term2, tn if term2 == "fall" else tn2))
             out = out2
         return out
+
+
+def _with_value(st, value):
+    """Copy of an Assign/AugAssign/Return statement with another value expression (position info kept)."""
+    if isinstance(st, ast.Assign):
+        n = ast.Assign(targets=st.targets, value=value, type_comment=None)
+    elif isinstance(st, ast.AugAssign):
+        n = ast.AugAssign(target=st.target, op=st.op, value=value)
+    else:
+        n = ast.Return(value=value)
+    return ast.copy_location(n, st)
 
 
 def enum_paths(stmts, expand_loop=None, may_raise=None, rule="E2", where="?", max_paths=MAX_PATHS):
